@@ -2,7 +2,7 @@
 # tools/try_mutant.sh <patch.diff> <property> [extra check args] : apply a seeded change to /repo, run the check, undo it.
 patch="$1"; prop="$2"; shift 2
 git -C /repo apply "$patch" 2>/dev/null || git -C /repo apply --3way "$patch" 2>/dev/null || { git -C /repo reset -q --hard; echo "patch does not apply"; exit 9; }
-/verif/check "$prop" "$@"; rc=$?
+VERIF_EVIDENCE_DIR=/verif/scratch/evidence-mutant /verif/check "$prop" "$@"; rc=$?
 git -C /repo reset -q; git -C /repo checkout -- .
 echo "exit=$rc"
 exit $rc
